@@ -17,7 +17,8 @@ SPEC = {
     "level": "other",
     "lean_modules": ["PallasVerif.Props.C09"],
     "required_theorems": ["panic_sites_all_audited", "all_anchored_files_scanned", "peeraddress_bits_fit_u128",
-                          "decoded_peeraddress_in_range", "skip_never_out_of_fuel", "vec_anycbor_never_out_of_fuel"],
+                          "decoded_peeraddress_in_range", "skip_never_out_of_fuel", "vec_anycbor_never_out_of_fuel",
+                          "message_element_loops_never_out_of_fuel"],
     "translators": [_panic_sites],
     "extra": _extra,
     "streams": [{"name": "msgfuzz", "quick": 700, "thorough": 40000},
@@ -29,8 +30,8 @@ SPEC = {
             "one artefact (every .block/.tx/.header of test_data, the headers / first transactions / outputs / addresses inside them, "
             "address test vectors, the 203 reject reasons of the localtxsubmission tests, label seeds for every hand-written "
             "node-to-client payload decoder) unmutated + 6 (thorough 10) mutants through MultiEraBlock::decode + probe, MultiEraTx::decode "
-            "(+ decode_for_era x7), MultiEraHeader::decode, MultiEraOutput::decode (x7 eras), Address::from_bytes, minicbor::decode of "
-            "the payload types; distinct = sha1 of the op text; non-trivial = the case has at least one accepted and one rejected input",
+            "(+ decode_for_era x7), MultiEraHeader::decode, MultiEraOutput::decode (x7 eras), Address::from_bytes, Address::from_bech32 / from_str / ByronAddress::from_base58 on mutated text, minicbor::decode of "
+            "the payload types; one case in sixteen feeds random byte strings to a random entry point; distinct = sha1 of the op text; non-trivial = the case has at least one accepted and one rejected input",
     "trusted_base": [
         "network half: Model/NetCodec.lean + Model/NetMsg.lean (hand transcription of the minicbor primitives and of every message "
         "decoder), compared with the real decoders on every msgfuzz input (value, end-of-input, other error)",
